@@ -19,6 +19,10 @@ def _finish(pts, und_edges, rng, oneway_p, labels="int", kind="random", extra_ed
     n = len(pts)
     if labels == "int":
         lab = list(range(n))
+    elif labels == "intperm":
+        # the integers 0..n-1 in random order: label 0 (falsy) anywhere on the map, not only at the first node created
+        lab = list(range(n))
+        rng.shuffle(lab)
     elif labels == "gap":
         base = rng.randint(1, 50)
         lab = [base + 37 * i + rng.randint(0, 5) for i in range(n)]
@@ -55,7 +59,7 @@ def _finish(pts, und_edges, rng, oneway_p, labels="int", kind="random", extra_ed
     if rng.random() < 0.5:
         rng.shuffle(edges)
     return {"nodes": [[lab[i], [pts[i][0], pts[i][1]]] for i in order],
-            "edges": [[lab[a], lab[b]] for a, b in edges], "latlon": False, "kind": kind}
+            "edges": [[lab[a], lab[b]] for a, b in edges], "latlon": False, "kind": kind, "created": list(lab)}
 
 
 def _backbone(n, rng):
@@ -318,7 +322,7 @@ def gen_sparse_chain_case(rng, labels=("int",)):
                   dyadic=rng.random() < 0.3)
     c = coords(m)
     # the chain is nodes 0..n-1 in creation order; labels differ, so recover by walking the spec order
-    labs = [l for l, _ in sorted(m["nodes"], key=lambda t: _creation_index(t[0]))]
+    labs = list(m["created"]) if m.get("created") else [l for l, _ in sorted(m["nodes"], key=lambda t: _creation_index(t[0]))]
     step = rng.choice([2, 3, 4])
     noise = rng.choice([0.0, 0.02, 0.1])
     main = labs[: m.get("chain_len", len(labs))]
@@ -337,7 +341,7 @@ def gen_out_and_back_case(rng, labels=("int",)):
     non-emitting state on the way back, which is where a model that looks further back than one step shows."""
     m = map_chain(rng, rng.randint(4, 9), oneway_p=rng.choice([0.0, 0.0, 0.2]), labels=rng.choice(labels), dyadic=rng.random() < 0.5)
     c = coords(m)
-    labs = [l for l, _ in sorted(m["nodes"], key=lambda t: _creation_index(t[0]))]
+    labs = list(m["created"]) if m.get("created") else [l for l, _ in sorted(m["nodes"], key=lambda t: _creation_index(t[0]))]
     main = labs[: m.get("chain_len", len(labs))]
     k = rng.randint(2, min(4, len(main) - 1))
     # one-way feeder streets ending in chain nodes; the first starts beside the first observation and ends in the far node,
